@@ -2,7 +2,7 @@ import MayVerif.Proof.Runtime.Park.Tac
 namespace MayVerif.Park
 
 set_option maxHeartbeats 1000000 in
-theorem inv_stepK1 (s s' : St) (h : Inv s) (hg : kgrp s.kpc = 1) (hs : stepK s = some s') : Inv s' := by
+theorem inv_stepK2 (s s' : St) (h : Inv s) (hg : kgrp s.kpc = 2) (hs : stepK s = some s') : Inv s' := by
   have hppc : s.kpc = .k4r → s.ppc = .u3wait := fun hk => h.u3 (Or.inr (Or.inr (Or.inl (h.heldK.mpr hk))))
   have hppc2 : s.kpc = .k2r → s.ppc = .u3wait := fun hk => h.u3 (Or.inr (Or.inr (Or.inr (Or.inr (Or.inl (h.heldKt.mpr hk))))))
   have hnd : s.kpc ≠ .kidle → s.dropped = false := by
